@@ -1460,6 +1460,31 @@ func c02Decoders(P *Program, r *Result) {
 					detail = "window ends at " + A.linString(end)
 				}
 				r.add("IOREADER", shortName(sk), "read", "the slice handed to io.Reader.Read ends exactly n bytes after the accumulated bytes: nothing beyond the value can be consumed", P.pos(instrPos(cc)), ok, detail)
+				// … and starts right after the bytes already read for this request (fragments are placed one after the other)
+				okStart, dStart := false, "start offset not understood"
+				if sd != nil {
+					rel := sd.Off.sub(c0)
+					dStart = "each read starts at " + A.linString(rel) + " past the window start, which is not the running count of bytes read"
+					if id, isAtom := singleAtom(rel); isAtom {
+						if a := A.at(id); a.Phi != nil {
+							nn := resultValue(cc, 0)
+							zero, step := false, false
+							for i := range a.Phi.Block.Preds {
+								in := a.Phi.In(i)
+								if in.isConst() && in.C.Sign() == 0 {
+									zero = true
+								}
+								if nn != nil && in.equal(rel.add(fa.expand(nn))) {
+									step = true
+								}
+							}
+							if zero && step {
+								okStart, dStart = true, ""
+							}
+						}
+					}
+				}
+				r.add("IOREADER", shortName(sk), "read", "every read continues where the previous fragment ended", P.pos(instrPos(cc)), okStart, dStart)
 			}
 		}
 		// ---- Next ----
